@@ -201,3 +201,49 @@ func rwSumsScenario(w *rw) engine.Scenario {
 		c.Outcome(name, methods[mi], want)
 	}}
 }
+
+// rwManyTermsScenario: counts n of large Hamming weight (2^k-1 and neighbours): PartialTracesSum accumulates
+// HW(n) rotated terms mod QP before it reduces / divides by P, which is where a lazily reduced accumulator
+// comes closest to 2^64 (with 61-bit primes from 9 terms on). Keys from exactly the advertised list,
+// coefficient-domain oracle Σ_{i<n} phi_{5^(i*offset)} (n may exceed the order of 5: terms then repeat).
+func rwManyTermsScenario(w *rw, ns []int) engine.Scenario {
+	name := "manyterms/" + w.name
+	N := 1 << w.logN
+	offs := []int{1, -1, 3}
+	return engine.Scenario{Name: name, Bound: -1, Fn: func(c *engine.Chooser) {
+		w.ensure(c)
+		n := ns[c.Choose(len(ns), "n")]
+		off := offs[c.Choose(len(offs), "offset")]
+		uni.Seed(c, name, n, off)
+		co := rwRamp(N)
+		m := uint64(2 * N)
+		var list []uint64
+		if off < 0 {
+			list = rlwe.GaloisElementsForReplicate(w.p, -off, n)
+		} else {
+			list = rlwe.GaloisElementsForInnerSum(w.p, off, n)
+		}
+		ev := rlwe.NewEvaluator(w.p, rlwe.NewMemEvaluationKeySet(nil, w.keys(list)...))
+		ct := w.encrypt(co)
+		out := ct.CopyNew()
+		err, pan := uni.Try(func() error {
+			if off < 0 {
+				return ev.Replicate(ct, -off, n, out)
+			}
+			return ev.PartialTracesSum(ct, off, n, out)
+		})
+		if err != nil || pan != nil {
+			c.Fail("C11/rlwe/PartialTracesSum/many-terms/failed-with-advertised-keys", "%s: offset=%d n=%d err=%v panic=%v", w.name, off, n, err, pan)
+			return
+		}
+		want := make([]int64, N)
+		for i := 0; i < n; i++ {
+			want = addVec(want, autoCoeffs(co, pow5(i*off, m)))
+		}
+		if !w.check(c, "C11/rlwe/PartialTracesSum/many-terms/value", out, want, nil, n, 2*bits.Len(uint(n))+2) {
+			return
+		}
+		c.Cover("many-terms", fmt.Sprintf("rlwe-hw%d", bits.OnesCount(uint(n))))
+		c.Outcome(name, n, off)
+	}}
+}
